@@ -146,6 +146,12 @@ def xyzOf (F : Fns K) (lat lon : K) : List K :=
 
 /-- the row the tree stores for one element.  The element arrives as the grid reports it:
     `[lon, lat]` in degrees (spherical) or `[x, y, z]` (cartesian).
+    Cartesian rows are the STORED coordinates as they are — nothing is normalised: on a grid whose
+    Cartesian coordinates lie at radius `R` the tree metric is the chord between the stored points,
+    i.e. distances (and `r`) are in units of `R` (`cartesian_radius_scale`), and the ranking is that
+    of the unit sphere (`cartesian_radius_knn`).  Requesting a tree only READS coordinates: the
+    cache state machine below has no coordinate component, so what the grid reports is the same
+    before and after every request (checked on the implementation after every request).
     `np.vstack((deg2rad(lat), deg2rad(lon))).T` / `np.stack((x, y, z), axis=-1)`. -/
 def treePoint (F : Fns K) (sys : Sys) (e : List K) : List K :=
   match sys with
